@@ -330,11 +330,27 @@ def lib_cases(thorough, rng):
               ('typed_data(REAL)', lambda: parser.typed_data(tag_type=0xCA), bytes(range(8))),
               ('typed_data(BOOL)', lambda: parser.typed_data(tag_type=0xC1), b'\x00\x01\xff'),
               ('typed_data(SSTRING)', lambda: parser.typed_data(tag_type=0xDA), b'\x02ab\x00\x01c')]
+    # the library machines given their limit directly (their own limit= argument, not a wrapping machine's)
+    own = [('SSTRING', parser.SSTRING, {}), ('STRING', parser.STRING, {}), ('EPATH', parser.EPATH, {}), ('status', parser.status, {}),
+           ('typed_data', parser.typed_data, dict(tag_type=0xC3)), ('typed_data(REAL)', parser.typed_data, dict(tag_type=0xCA)),
+           ('typed_data(BOOL)', parser.typed_data, dict(tag_type=0xC1)), ('typed_data(SSTRING)', parser.typed_data, dict(tag_type=0xDA)),
+           ('typed_data(LINT)', parser.typed_data, dict(tag_type=0xC5)), ('CPF', parser.CPF, {}), ('unconnected_send', parser.unconnected_send, {})]
+    datas = dict((n, d) for n, _, d in wraps); datas['typed_data(LINT)'] = bytes(range(24))
+    for name, cls, kw in own:
+        data = datas[name]
+        for k in range(0, len(data) + 2):
+            out.append(('%s(limit=%d)' % (name, k), (lambda cls=cls, kw=kw, k=k: cls(limit=k, terminal=True, **kw)), data, ('limit', k), None))
+        for lim in ('..nolength', 'nolength', '...no.such'):
+            # a limit that names a field the data does not hold bounds the machine to nothing (never: to no limit at all)
+            out.append(('%s(limit=%r, absent)' % (name, lim), (lambda cls=cls, kw=kw, lim=lim: cls(limit=lim, terminal=True, **kw)), data, ('limit', 0), None))
     for name, mk, data in wraps:
         for k in range(0, len(data) + 2):
             def mkw(mk=mk, k=k):
                 return A.dfa(name='lim', context='w', initial=mk(), limit=k, terminal=True)
             out.append(('limit%d(%s)' % (k, name), mkw, data, ('limit', k), None))
+        # a limit that names a field the data does not hold bounds the machine to nothing (never: to no limit at all)
+        out.append(('limit-by-absent-field(%s)' % name, (lambda mk=mk: A.dfa(name='lim', context='w', initial=mk(), limit='..nolength', terminal=True)), data, ('limit', 0), None))
+        out.append(('limit-by-absent-field2(%s)' % name, (lambda mk=mk: A.dfa(name='lim', context='w', initial=mk(), limit='nolength', terminal=True)), data, ('limit', 0), None))
         # the bare machine on its input with one length/count/size byte altered, and on prefixes of it
         for j in range(len(data) if thorough else min(len(data), 12)):
             for delta in ((1, 2, 3, 127, 128, 255) if thorough else (1, 255, 2)):
